@@ -124,6 +124,7 @@ impl Prop for C16 {
             "plain_488_mss_from_esb_only",
             "response_buffer_exhausted_at_terminator",
             "stb_on_interface_without_mav_after_a_response",
+            "stb_read_into_a_reused_buffer_without_mav",
         ];
         v.into_iter().map(String::from).collect()
     }
@@ -227,6 +228,14 @@ impl Prop for C16 {
             if msg.units.is_empty() {
                 continue;
             }
+            if g.rng.chance(1, 12) {
+                // the caller reuses its response buffer without emptying it (or collects the
+                // responses of several messages in one buffer): that is not the interface
+                // reporting message-available
+                let b = *g.rng.pick(&[&b"0\n"[..], b"stale", b"1;2\n", b"\n", b"+17,\"x\"\n"]);
+                shadow.prefill = b.to_vec();
+                t.steps.push(Step::Prefill(B(b.to_vec())));
+            }
             let mut s = SendStep {
                 ctl,
                 fmt: FmtCfg::Vec,
@@ -238,7 +247,7 @@ impl Prop for C16 {
                 if let Some(o) = &p.out {
                     if !o.is_empty() && o.len() < 190 {
                         let len = o.len() as i64;
-                        let cap = (len + *g.rng.pick(&[-1i64, -1, -2, 0, 1, -len / 2])).max(0) as usize;
+                        let cap = ((len + *g.rng.pick(&[-1i64, -1, -2, 0, 1, -len / 2])).max(0) as usize).max(shadow.prefill.len());
                         s.fmt = FmtCfg::Array { cap };
                     }
                 }
@@ -355,6 +364,9 @@ impl StepHandler for H16 {
             return;
         }
         let mav = before.outq.get(s.ctl as usize).copied().unwrap_or(false);
+        if !before.prefill.is_empty() && !mav && pred.executed.iter().any(|(_, c, q)| *c == Contrib::Stb && *q) {
+            stats.probe("stb_read_into_a_reused_buffer_without_mav");
+        }
         // coverage + probes
         for (ui, c, q) in &pred.executed {
             let sre_class = (before.sre != 0) as u8 + (before.sre & 0x10 != 0) as u8;
